@@ -415,6 +415,76 @@ def check(ctx, repo, T, rel, cls, fn, construct, rule='R00'):
                         'class-level attribute: every instance of the class '
                         '(in this process) sees and modifies the same '
                         'object' % (norm_stmt(a)[:60], U(srcs[0])))
+    # (c) a lazily filled cache of *objects* whose entry is handed out as
+    #     it is: every caller configures the same instance
+    for st in ast.walk(fn):
+        if not (isinstance(st, ast.If) and isinstance(st.test, ast.Compare)
+                and len(st.test.ops) == 1
+                and isinstance(st.test.ops[0], ast.NotIn)):
+            continue
+        slot = _recv_text(st.test.comparators[0])
+        if not slot or not slot.startswith('self.'):
+            continue
+        params_ = {a.arg for a in fn.args.args}
+        fills = [a for b in st.body for a in ast.walk(b)
+                 if isinstance(a, ast.Assign) and isinstance(
+                     a.targets[0], ast.Subscript)
+                 and _recv_text(a.targets[0].value) == slot
+                 and isinstance(a.value, ast.Call)
+                 and (repo.has_cls(U(a.value.func).split('.')[-1])
+                      or (isinstance(a.value.func, ast.Name)
+                          and a.value.func.id in params_))]
+        if not fills:
+            continue
+        for r_ in ast.walk(fn):
+            if isinstance(r_, ast.Return) and isinstance(
+                    r_.value, ast.Subscript) and _recv_text(
+                    r_.value.value) == slot:
+                bad += 1
+                ctx.violation(
+                    rule, repo.loc(r_, cls, fn.name), construct,
+                    'L48 cached object handed out %s' % slot,
+                    '`%s` returns the entry of the cache `%s` itself (filled '
+                    'by `%s`): every caller receives the same mutable '
+                    'object, so configuring one (dosing, outputs, names) '
+                    'changes what the next caller gets' % (
+                        norm_stmt(r_)[:50], slot, norm_stmt(fills[0])[:50]))
+    # (d) state handed from this object to another one field by field: one
+    #     field is copied, another container is not
+    if cls:
+        moved = []
+        for a in ast.walk(fn):
+            if isinstance(a, ast.Assign) and len(a.targets) == 1 \
+                    and isinstance(a.targets[0], ast.Attribute) \
+                    and isinstance(a.targets[0].value, ast.Name) \
+                    and a.targets[0].value.id != 'self':
+                v = a.value
+                copied = False
+                if isinstance(v, ast.Call):
+                    f_ = U(v.func)
+                    if f_ in ('copy.copy', 'copy.deepcopy', 'np.copy',
+                              'np.array', 'list', 'dict') and v.args:
+                        v, copied = v.args[0], True
+                    elif isinstance(v.func, ast.Attribute) \
+                            and v.func.attr == 'copy' and not v.args:
+                        v, copied = v.func.value, True
+                t_ = _recv_text(v)
+                if t_ and t_.startswith('self.'):
+                    moved.append((a, t_, copied, a.targets[0].value.id))
+        if any(m_[2] for m_ in moved) and any(not m_[2] for m_ in moved):
+            from .purity import _mutable_fields
+            mut = _mutable_fields(repo, cls)
+            for a, t_, copied, other in moved:
+                if not copied and t_ in mut and any(
+                        m_[2] and m_[3] == other for m_ in moved):
+                    bad += 1
+                    ctx.violation(
+                        rule, repo.loc(a, cls, fn.name), construct,
+                        'L48 shared container handed over %s' % t_,
+                        '`%s` hands the container `%s` of this object to '
+                        '`%s` as it is, while the neighbouring fields are '
+                        'copied: the two objects then write into one array '
+                        '/ list' % (norm_stmt(a)[:60], t_, other))
     # ---- L49 -------------------------------------------------------------
     # the sorting permutation of an array that is already sorted is the
     # identity: whatever is re-ordered with it stays as it was
@@ -496,6 +566,26 @@ def check(ctx, repo, T, rel, cls, fn, construct, rule='R00'):
                         'seed `%s` was given: the valid seed 0 is treated '
                         'like None, so a run seeded with 0 is not '
                         'reproducible' % (U(n.test)[:40], x.id))
+    # ---- L51 -------------------------------------------------------------
+    # the truth value of a reduction compared by ordering with a number:
+    # `np.all(x) > 0` tests "no entry is zero", not "every entry is positive"
+    for c in ast.walk(fn):
+        if isinstance(c, ast.Compare) and len(c.ops) == 1 and isinstance(
+                c.ops[0], (ast.Gt, ast.GtE, ast.Lt, ast.LtE)) \
+                and isinstance(c.left, ast.Call) and U(c.left.func) in (
+                    'np.all', 'np.any', 'all', 'any', 'np.alltrue',
+                    'np.sometrue') and c.left.args \
+                and not isinstance(c.left.args[0], ast.Compare):
+            bad += 1
+            ctx.violation(
+                rule, repo.loc(c, cls, fn.name), construct,
+                'L51 ordering of a truth value',
+                '`%s` compares the truth value of a reduction with a '
+                'number: `%s(x)` is True when %s entry is non-zero, so '
+                'negative entries pass; the comparison belongs inside the '
+                'reduction' % (U(c)[:50], U(c.left.func),
+                               'every' if 'all' in U(c.left.func)
+                               else 'some'))
     return bad
 
 
